@@ -322,6 +322,61 @@ def part_log():
                     line += f' ++ {lean_str(pieces[-1])}'
     if line is None:
         raise Untranslatable('PythonPlugin.log_tracepoint changed shape')
+    # LogActionContext._process_action, LogActionResult.process, the log branch of the snapshot action: checked
+    # shapes, then written out as definitions (`process_log` itself is a parameter: Model/Template.render)
+    if not same_shape(find_def(tree, 'LogActionContext._process_action'),
+                      'log_msg = self.location_action.config.get(LOG_MSG)\n'
+                      'log, watches, vars_ = self.process_log(log_msg)\n'
+                      'self.trigger_context.attach_result(LogActionResult(self.location_action, log))\n'):
+        raise Untranslatable('LogActionContext._process_action changed shape')
+    prb = [x for x in pr.body if not (isinstance(x, ast.Expr) and isinstance(x.value, ast.Constant))]
+    if not (len(prb) == 3 and ast.unparse(prb[0]) == 'tracepoint_logger = ctx.config.tracepoint_logger'
+            and isinstance(prb[1], ast.If) and not prb[1].orelse and len(prb[1].body) == 1
+            and prb[1].body[0].value is calls[0] and ast.unparse(prb[2]) == 'return None'):
+        raise Untranslatable('LogActionResult.process changed shape')
+    test = ast.unparse(prb[1].test)
+    if test == 'tracepoint_logger':
+        logger_test = '.truthy'
+    elif test == 'tracepoint_logger is not None':
+        logger_test = '.notNone'
+    else:
+        raise Untranslatable('LogActionResult.process: logger test ' + test)
+    spa = find_def(load(SNAP), 'SnapshotActionContext._process_action')
+    branch = None
+    for n in spa.body:
+        if isinstance(n, ast.If) and ast.unparse(n.test) == 'log_msg is not None' and not n.orelse:
+            branch = n
+    want_branch = [
+        'context = LogActionContext(self.trigger_context, LocationAction(self.location_action.id, None, '
+        '{LOG_MSG: log_msg}, LocationAction.ActionType.Log))',
+        'context.var_cache = self.var_cache', 'context.collection_config = self.collection_config',
+        'log, watches, log_vars = context.process_log(log_msg)', 'snapshot.log_msg = log',
+        'for watch in watches: snapshot.add_watch_result(watch)', 'snapshot.merge_var_lookup(log_vars)',
+        'self.trigger_context.attach_result(LogActionResult(context.location_action, log))']
+    if branch is None or [' '.join(ast.unparse(x).split()) for x in branch.body] != want_branch:
+        raise Untranslatable('SnapshotActionContext._process_action: the log_msg branch changed shape')
+    idx = spa.body.index(branch)
+    if not any(ast.unparse(x) == 'log_msg = self.log_msg' for x in spa.body[:idx]):
+        raise Untranslatable('SnapshotActionContext._process_action: log_msg is no longer self.log_msg')
+    actions_part = (
+        '/-- what `process_log` gives the actions: the message and the LOG watch results (their expressions) -/\n'
+        'structure ProcLog where\n  msg : String\n  watches : List String\nderiving DecidableEq, Repr\n\n'
+        '/-- `LogActionContext._process_action` (checked shape, written out): the messages of the LogActionResults it\n'
+        '    attaches; `pl = none`: `process_log` raised, nothing is attached. -/\n'
+        'def logActionAttach (pl : Option ProcLog) : List String :=\n'
+        '  match pl with\n  | none => []\n  | some r => [r.msg]\n\n'
+        '/-- the `log_msg` branch of `SnapshotActionContext._process_action` (checked shape, written out):\n'
+        '    (snapshot.log_msg, expressions of the watch results added to the snapshot, messages of the attached\n'
+        '    LogActionResults); `none` = `process_log` raised — the exception leaves `_process_action`, no snapshot. -/\n'
+        'def snapshotLogBranch (logMsg : Option String) (processLog : String → Option ProcLog) :\n'
+        '    Option (Option String × List String × List String) :=\n'
+        '  match logMsg with\n  | none => some (none, [], [])\n'
+        '  | some t => match processLog t with\n    | none => none\n    | some r => some (some r.msg, r.watches, [r.msg])\n\n'
+        '/-- how `LogActionResult.process` decides whether there is a tracepoint logger -/\n'
+        'inductive LoggerTest | truthy | notNone\nderiving DecidableEq, Repr\n'
+        f'def loggerTest : LoggerTest := {logger_test}\n\n'
+        '/-- the configured tracepoint logger: none, an object that is falsy (`__len__` 0 / `__bool__` False), a plain one -/\n'
+        'inductive LoggerObj | absent | falsy | plain\nderiving DecidableEq, Repr\n\n')
     # ActionContext.eval_watch: which text a field gets (third component of every returned tuple)
     ew = find_def(load(ACTX), 'ActionContext.eval_watch')
     rets = [n for n in ast.walk(ew) if isinstance(n, ast.Return)]
@@ -397,7 +452,7 @@ def part_log():
                    'context.var_cache = self.var_cache'):
         if needle not in stmts:
             raise Untranslatable('SnapshotActionContext._process_action: missing `%s`' % needle)
-    return (watch_part +
+    return (watch_part + actions_part +
             '/-- `LogActionContext.process_log`: message = logPrefix ++ formatted template ++ logSuffix -/\n'
             f'def logPrefix : String := {lean_str(pre)}\n'
             f'def logSuffix : String := {lean_str(post)}\n\n'
